@@ -23,6 +23,8 @@ import (
 
 var gateLabels = map[string]bool{
 	"stage.recover.begin": true, "stage.process.begin": true, "stage.finalize.item": true, "stage.clean.begin": true,
+	// inserted by tools/maporder at the top of stage.finalizeQueue (not a line of /repo)
+	"stage.finalize.queue": true,
 }
 
 // optional gates: park only when hot in this run
